@@ -7,11 +7,13 @@
                                                             raised = None | q<errkind>
     ch7.encap L sid pkts ->  [[PTFR{…};…];[x<packed>;…]]   (frames yielded, their pack() bytes)
     ch7.decap L frames   ->  [[PTDP{…};…];rem;raised]      rem = None | x<bytes>
+    ch7.nollp L sid pkts ->  True|False                     (NoLLPOverflow along the encapsulation fold)
     pkts = [[x<bytes>;True|False];…]
 -/
 import Acra.Drv.Core
 import Acra.Model.Golay
 import Acra.Model.Chapter7
+import Acra.Model.Chapter7NoOverflow
 namespace Acra.Drv
 open Acra.Py
 
@@ -189,6 +191,12 @@ def funcs : List Func := [
       | [l, s, p] => do
         let l ← l.nat?; let s ← s.nat?; let pk ← pktsOfVal p
         pure ((datapktsToPtfr pk l s).map fun (_, out) => .list [.list (out.map ptfrVal), .list (packAll out)])
+      | _ => none },
+  { name := "ch7.nollp", run := fun vs =>
+      match vs with
+      | [l, s, p] => do
+        let l ← l.nat?; let s ← s.nat?; let pk ← pktsOfVal p
+        pure (.ok (.bool (noLLPOverflowFrom l s (datapktsToPtdp pk) (newPtfr l s, []))))
       | _ => none },
   { name := "ch7.decap", run := fun vs =>
       match vs with
